@@ -31,6 +31,10 @@ var c06Blocklists = [][]string{
 	{"10.0.0.0/8", "192.168.0.0/16", "127.0.0.0/8", "fc00::/7", "::1/128"},
 	{"203.0.113.64/26", "2001:db8:bad::/48"},
 	{"0.0.0.0/0"},
+	// nested and overlapping entries, with and without a common base address, host bits set, duplicates:
+	// every entry is in force, whatever the list looks like
+	{"10.0.0.0/8", "10.0.0.0/24", "203.0.113.0/30", "203.0.113.0/24", "2001:db8:bad::/64", "2001:db8:bad::/48", "127.0.0.1/32", "127.0.0.1/8"},
+	{"10.0.0.0/24", "10.0.0.0/8", "10.0.0.0/8", "192.168.1.1/16", "fc00::/7", "fc00::/8"},
 }
 var c06Allowlists = [][]string{
 	{}, {}, {},
@@ -47,8 +51,8 @@ var c06DomainPatterns = [][]string{
 }
 
 // IP literals used by the grammar: inside and outside the lists above
-var c06V4 = []string{"203.0.113.10", "203.0.113.70", "203.0.113.200", "10.1.2.3", "192.168.1.1", "127.0.0.1", "198.18.0.1", "0.0.0.0", "255.255.255.255"}
-var c06V6 = []string{"2001:db8:600d::1", "2001:db8:bad::1", "2001:db8:1234::1", "::1", "fc00::1", "fe80::1", "::", "::ffff:10.1.2.3", "::ffff:203.0.113.10", "2001:0db8:600d:0000:0000:0000:0000:0001"}
+var c06V4 = []string{"203.0.113.10", "203.0.113.70", "203.0.113.200", "10.1.2.3", "192.168.1.1", "127.0.0.1", "127.0.0.2", "192.168.200.7", "198.18.0.1", "0.0.0.0", "255.255.255.255"}
+var c06V6 = []string{"2001:db8:600d::1", "2001:db8:bad::1", "2001:db8:bad:77::1", "2001:db8:1234::1", "::1", "fc00::1", "fe80::1", "::", "::ffff:10.1.2.3", "::ffff:203.0.113.10", "2001:0db8:600d:0000:0000:0000:0000:0001"}
 var c06Zoned = []string{"fe80::1%eth0", "::1%lo", "fc00::1%eth0", "2001:db8:bad::1%eth0", "::ffff:10.1.2.3%lo", "2001:db8:600d::1%eth0", "::ffff:127.0.0.1%lo", "fe80::1%25eth0", "2001:db8:1234::1%1"}
 var c06Ports = []string{"443", "80", "1", "65535", "0", "65536", "99999", "", "-1", "+80", " 80", "080", "http", "4 43", "443 "}
 var c06Names = []string{"covert.example", "rebind.example", "www.blocked.example", "localhost", "db.internal", "multi.example", "nx.example", "slow.example", "0x0a.0.0.1", "10.1", "167772161", "012.0.0.1", "1.2.3.4.5", "example.com."}
@@ -68,7 +72,7 @@ func TestVerifC06(t *testing.T) {
 		Runs:     map[string]int{"quick": 20000, "thorough": 800000},
 		Real:     []string{"RegConfig.ParseBlocklists / ParseOrResolveBlocklisted / isBlocklistedCovertAddr / isBlocklistedCovertDomain", "ingestRegistration (covert overwritten with the resolved literal)", "handleNewTCPConn -> Proxy -> dial of the stored string", "min transport end to end"},
 		Stub:     []string{"net.ResolveIPAddr for names (scripted resolver; literals and the empty host go to the real function, which does no DNS for them)", "net.Dial (recording seam + echo host)", "TCP, liveness, detector, ZMQ"},
-		Rule: "random: policy {5 blocklists x 5 allowlists x 4 domain-pattern sets}, replaced by a configuration reload (OnReload, station idle) before a registration with probability 1/4, x up to 6 registrations whose covert string comes from a grammar: canonical IPv4/IPv6 literals inside and outside the lists, v4-mapped, zoned, unbracketed, expanded, empty host, missing / zero / oversized / signed / padded / non-numeric ports, hostnames (incl. numeric look-alikes such as 0x0a.0.0.1), garbage; resolver scripts per name (permitted-then-forbidden, forbidden-then-permitted, NXDOMAIN, timeout). Every registration is followed by a genuine connection; the dialled string is judged by an independent evaluator. " +
+		Rule: "random: policy {7 blocklists (two with nested, overlapping and duplicate entries) x 5 allowlists x 4 domain-pattern sets}, replaced by a configuration reload (OnReload, station idle) before a registration with probability 1/4, x up to 6 registrations whose covert string comes from a grammar: canonical IPv4/IPv6 literals inside and outside the lists, v4-mapped, zoned, unbracketed, expanded, empty host, missing / zero / oversized / signed / padded / non-numeric ports, hostnames (incl. numeric look-alikes such as 0x0a.0.0.1), garbage; resolver scripts per name (permitted-then-forbidden, forbidden-then-permitted, NXDOMAIN, timeout). Every registration is followed by a genuine connection; the dialled string is judged by an independent evaluator. " +
 			"The textual address space is SAMPLED by the grammar, not enumerated. non-trivial = a registration was admitted and dialled; distinct = (policy, covert string class, resolver script, outcome)",
 		Assume: []string{"policy is evaluated as of admission time", "well-formed = netip.ParseAddrPort accepts the string, no zone, port 1..65535"},
 	})
@@ -249,6 +253,17 @@ func c06Scenario(r *sim.Run) {
 				c.source = pb.RegistrationSource_DetectorPrescan
 				class += "+prescanned"
 			}
+			// a registration for a transport with which the STATION connects to the client (as the DTLS
+			// transport does): no first flight is involved, the station dials the covert by itself as
+			// soon as its Connect succeeded - after the same admission checks
+			var ct *c17Connecting
+			if !retry && tp.Prob("connecting-transport", 1, 6) {
+				ct = &c17Connecting{w: w, cli: simnet.TCP("198.51.100.21", 42500+i), ok: true}
+				w.rm.AddTransport(pb.TransportType_DTLS, ct)
+				c.tt, c.pparams = pb.TransportType_DTLS, nil
+				class += "+connecting"
+				r.Probe("connecting_transport_registration")
+			}
 			w.mu.Lock()
 			before := map[string]int{}
 			for k, v := range w.lookups {
@@ -270,10 +285,12 @@ func c06Scenario(r *sim.Run) {
 			}
 			w.mu.Unlock()
 			// the client connects
-			fl, err := c.flight()
-			if err != nil {
-				r.Fail("harness/c06-flight", "%v", err)
-				return
+			var fl []byte
+			if ct == nil {
+				if fl, err = c.flight(); err != nil {
+					r.Fail("harness/c06-flight", "%v", err)
+					return
+				}
 			}
 			// the resolver may answer differently from now on (rebinding)
 			w.mu.Lock()
@@ -282,7 +299,7 @@ func c06Scenario(r *sim.Run) {
 				mid[k] = v
 			}
 			w.mu.Unlock()
-			dialFails := tp.Prob("dial-fails", 1, 5)
+			dialFails := ct == nil && tp.Prob("dial-fails", 1, 5)
 			if dialFails {
 				// the covert host is down / unreachable at connection time: the station must give up (or
 				// retry the SAME checked literal), not fall back to anything it has not checked
@@ -293,16 +310,33 @@ func c06Scenario(r *sim.Run) {
 				class += "+dial-fails"
 				r.Fault("dial/" + sh.Name)
 			}
-			conn := w.open(c.phantom(false), simnet.TCP("198.51.100.20", 42000+i))
-			stWriteSegments(conn.H, append(fl, []byte("ping")...), nil, nil)
-			stReadN(conn.H, 4, 12*time.Second)
-			w.settle()
-			conn.H.Close()
-			for k := 0; k < 20 && !conn.returned; k++ {
+			if ct != nil {
+				// the station has connected (or not) on its own; a failing dial planned above hits it
+				// only if it dials now, which it does not: the tunnel, if any, is already up
 				w.settle()
-				time.Sleep(time.Second)
+				if ct.H != nil {
+					ct.H.Write([]byte("ping"))
+					stReadN(ct.H, 4, 12*time.Second)
+					w.settle()
+					ct.H.Close()
+					for k := 0; k < 20 && !ct.done(); k++ {
+						w.settle()
+						time.Sleep(time.Second)
+					}
+					w.settle()
+				}
+			} else {
+				conn := w.open(c.phantom(false), simnet.TCP("198.51.100.20", 42000+i))
+				stWriteSegments(conn.H, append(fl, []byte("ping")...), nil, nil)
+				stReadN(conn.H, 4, 12*time.Second)
+				w.settle()
+				conn.H.Close()
+				for k := 0; k < 20 && !conn.returned; k++ {
+					w.settle()
+					time.Sleep(time.Second)
+				}
+				w.settle()
 			}
-			w.settle()
 			w.mu.Lock()
 			w.failDials = 0
 			var dialled []string
@@ -332,6 +366,9 @@ func c06Scenario(r *sim.Run) {
 				}
 			}
 			prevClient, prevDialled, reloadedSincePrev, prevDialAddr = c, len(dialled) > 0, false, ""
+			if ct != nil {
+				prevClient = nil // same-secret repeats are about wrapping-transport sessions
+			}
 			if len(dialled) > 0 {
 				prevDialAddr = dialled[0]
 			}
